@@ -264,7 +264,9 @@ type reference struct {
 func (c *Case) tableName(u, t int) string {
 	s := c.Units[u]
 	for _, v := range c.Tabs[t] {
-		s += " " + v
+		if v != "" { // (a result without the key: the label lists the values that exist)
+			s += " " + v
+		}
 	}
 	return s
 }
@@ -965,7 +967,9 @@ func trunc(s string, n int) string {
 var unitPool = []string{"B/op", "allocs/op", "widgets", "x-score"}
 var benchPool = []string{"Foo", "Foo-8", "Bar/n=1-8", "Bar/n=10-8", "Baz", "Qux/sub/k=v"}
 var tabKeyPool = []string{"goarch", "goos"}
-var tabValPool = [][]string{{"amd64", "arm64", "riscv64"}, {"linux", "darwin", "plan9"}}
+// (values of the two keys never coincide: the table label lists values only; "a"+"bc" and "ab"+"c"
+// concatenate alike; "" = the result lacks the key)
+var tabValPool = [][]string{{"amd64", "arm64", "riscv64", "a", "ab", ""}, {"linux", "darwin", "plan9", "bc", "c", ""}}
 
 func genValue(t *rapid.T, kind int) float64 {
 	switch kind {
